@@ -43,7 +43,7 @@ func checkC01(c *vkit.Ctx) {
 			continue
 		}
 		r := c.Rand("hist", i)
-		h := GenHistory(r, HistOpts{APIs: []string{"snap", "snap", "json", "yaml"}, NoHuge: i%7 != 0})
+		h := GenHistory(r, HistOpts{APIs: []string{"snap", "snap", "json", "yaml"}, NoHuge: i%7 != 0, Cleanups: true})
 		c.Guard(histSample(&h), func() { runC01(c, i, &h) })
 	}
 }
